@@ -81,10 +81,29 @@ def generate(seed, tier, index):
                               {"label": None, "sub": {"C": 1}, "prod": {"E": 1}, "kf": [rs.loguniform(0.5, 2.0)], "kr": [0.0]}],
                 "space": {"type": "grid", "w": nc_, "h": 1, "d": 1, "bc": ["reflecting"] * 3, "cell_env": [0] * nc_, "vol": vol},
                 "state": [xa] + [0.0] * (nc_ - 1) + [0.0] * nc_ + [float(rs.randint(20, 400))] * nc_ + [0.0] * nc_, "chem": None}
+    highrate = (not giant) and kind == "tauleap" and rs.chance(0.06)
+    if highrate:
+        # creation at a constant high rate in every cell of a grid: 1000-1600 firings per cell and step, thousands of steps.
+        # A bias of a fraction of a molecule per draw (a rounded or truncated approximation of the Poisson law) shows in
+        # the pooled mean
+        nc_ = rs.randint(8, 20)
+        vol = (rs.loguniform(0.5, 2.0) * 1e-6) ** 3
+        dth = rs.loguniform(0.01, 1.0)
+        lam = rs.uniform(1050.0, 1600.0)
+        spec = {"envs": ["cyt"],
+                "species": [{"label": "A", "D": [0.0], "dens": [0.0], "chst": [0]}],
+                "reactions": [{"label": None, "sub": {}, "prod": {"A": 1}, "kf": [lam / (vol * dth)], "kr": [0.0]}],
+                "space": {"type": "grid", "w": nc_, "h": 1, "d": 1, "bc": ["reflecting"] * 3, "cell_env": [0] * nc_, "vol": vol},
+                "state": [0.0] * nc_, "chem": None}
+        nsth = rs.randint(1200, 1800)
+        sp_h = {"kind": "tauleap", "dt": dth, "t_sample": [0.0], "t_max": (nsth - 0.5) * dth, "policy": "on_iteration",
+                "interval": dth, "seed": rk.bits(31), "isp": "none", "ongrid": False, "steps": nsth}
     e0 = C.make_script_entry(rs, ru, rk, kind, spec_p,
                              {"steps": steps, "policy": "on_iteration", "isp": "none" if giant else rk.choice(["none", "none", "auto"]),
                               "p_seed": 1.0, "p_explicit_tmax": 1.0, "nreq": (1, 2), "courant": (0.02, 0.2), "p_zero_tmax": 0.0},
                              rich=rs.chance(0.3), spec=spec)
+    if highrate:
+        e0 = C.rerender_plain({"phys": {"spec": spec, "sp": sp_h, "kind": "tauleap"}})
     nruns = rf.randint(3, 6) if kind == "gillespie" else rf.randint(2, 5)
     scripts = []
     eps = []
@@ -110,7 +129,7 @@ def generate(seed, tier, index):
                        "warm": True})
     return {"format": 1, "property": ID, "seed": seed, "tier": tier, "index": index, "build": "plain",
             "scripts": scripts, "lifetimes": [{"pyseed": 1, "episodes": eps}],
-            "meta": {"kind": kind, "nruns": nruns, "warm": warm is not None, "giant": giant}}
+            "meta": {"kind": kind, "nruns": nruns, "warm": warm is not None, "giant": giant, "highrate": highrate}}
 
 
 # ------------------------------------------------------------------------------------------------ static event table
@@ -392,6 +411,8 @@ def check(case, results):
     stats["runs_that_died"] = acc["died"]
     if case["meta"].get("giant"):
         stats["count_above_2^31_in_a_cell"] = 1
+    if case["meta"].get("highrate"):
+        stats["firings_per_draw_above_1000"] = 1
     ctx = {"class": "violation", "lifetime": 0, "episode": None}
     if kind == "gillespie" and not viol:
         w = np.array(acc["w"])
